@@ -26,7 +26,7 @@ func init() {
 	register(&PropDef{
 		ID:          "C06",
 		Level:       "other",
-		Explanation: "FIFO as a shape of the code: every mutation of the wait list in the module is classified by the SSA form of the new value relative to the list loaded under the same key — push-back, pop-front, order-preserving delete-at-i, replace-last, clear are the only forms allowed; push-front, pop-back, swap-remove, sort or an unrecognised form is reported; a wait-list slice is never handed to another function; the dequeue function starts element 0 of the list and pops it; a list cached in a local is not written back after a call that can modify the wait list (lost update); a new request cannot overtake the queue by a direct start because every slot-freeing event (completion, failed start of a popped job, delay expiry, cancel of a waiting job) re-runs the dequeue in the same lock region and the running predicate is exactly started ∧ ¬completed ∧ ¬canceled (a slot is not freed before the completion handler runs). Decides the shapes, not the order of Start timestamps at run time.",
+		Explanation: "FIFO as a shape of the code: every mutation of the wait list in the module is classified by the SSA form of the new value relative to the list loaded under the same key — push-back, pop-front, order-preserving delete-at-i, replace-last, clear are the only forms allowed; push-front, pop-back, swap-remove, sort or an unrecognised form is reported; a wait-list slice is handed only to module functions that just read it or whose own effect is one of these forms (a list helper that returns the list without its head or without one job, or overwrites its last entry); the dequeue function starts element 0 of the list and pops it; a list cached in a local is not written back after a call that can modify the wait list (lost update); a new request cannot overtake the queue by a direct start because every slot-freeing event (completion, failed start of a popped job, delay expiry, cancel of a waiting job) re-runs the dequeue in the same lock region and the running predicate is exactly started ∧ ¬completed ∧ ¬canceled (a slot is not freed before the completion handler runs). Decides the shapes, not the order of Start timestamps at run time.",
 		Trusted:     []string{"C13 (wait-list operations are serialised by the runner mutex)"},
 		NotDecided:  []string{"run-time order of Start timestamps", "jobs whose delay timer blocks the head (head-of-line blocking is by design)"},
 		Check: func(w *World, r *Report) {
